@@ -342,7 +342,34 @@ func PhiLeaves(ph *ssa.Phi) []ssa.Value {
 
 // Same reports whether a and b are provably the same value.
 func Same(a, b ssa.Value) bool {
-	return Root(a) == Root(b)
+	if Root(a) == Root(b) {
+		return true
+	}
+	// the same value whenever it is not nil: a helper's result on its success return, nil on its error returns
+	// (rpc, err := c.takeAnswered(id): rpc is what unregisterRPC returned, or nil together with an error)
+	return rootModNil(a) == rootModNil(b)
+}
+
+func rootModNil(v ssa.Value) ssa.Value {
+	r := Root(v)
+	ph, ok := r.(*ssa.Phi)
+	if !ok {
+		return r
+	}
+	var one ssa.Value
+	for _, l := range PhiLeaves(ph) {
+		if IsNilConst(l) {
+			continue
+		}
+		if one != nil && one != l {
+			return r
+		}
+		one = l
+	}
+	if one == nil {
+		return r
+	}
+	return one
 }
 
 // ConstInt returns the integer value of a constant.
